@@ -796,6 +796,9 @@ class PVLParser(object):
         self.parse_WSC_until(None, tokens)
         try:
             return self.parse_units(value, tokens)
+        except LexerError:
+            # A malformed Units Expression, not the absence of one.
+            raise
         except (ValueError, StopIteration):
             return value
 
